@@ -491,4 +491,7 @@ def retag(qp, C26, gen, spec, name, mech, ms):
             return "default.clifford:probs-wire-order"
         if "AttributeError" in mech and "var" in kinds:
             return "default.clifford:var-missing-kwargs"
+    if name.startswith("default.tensor") and mech.startswith("equivalent:"):
+        # a value mismatch of default.tensor alone that none of the root-caused mechanisms above explains
+        return "default.tensor:result-mismatch:unrooted"
     return mech
